@@ -512,10 +512,33 @@ impl World {
             OpenApi::Alloc => rc.real.as_mut().unwrap().open(&whole, aad),
             OpenApi::InPlace => rc.real.as_mut().unwrap().open_in_place(&mut buf, aad, &tag).map(|_| buf.clone()),
             OpenApi::SingleShot => su.ss_open(&rc.mode_r, &rc.sk_r, &rc.enc, &rc.cfg.info, &whole, aad),
-            OpenApi::SingleShotInPlace => su.ss_open_in_place(&rc.mode_r, &rc.sk_r, &rc.enc, &rc.cfg.info, &body, aad, &tag),
+            OpenApi::SingleShotInPlace => su.ss_open_in_place(&rc.mode_r, &rc.sk_r, &rc.enc, &rc.cfg.info, &mut buf, aad, &tag),
         };
         cov.ops += 1;
         tx_res(&mut self.tx, &res);
+        if detached && matches!(res, Err(Fail::Hpke(_))) && body.len() >= 8 && buf.len() == body.len() && matches!(p, P::C06 | P::C05 | P::C14) {
+            // "never returns plaintext": after a rejected in-place open the caller's buffer must not
+            // hold the decryption of what was presented. The keystream at this position is known from
+            // any record sealed at it under the same key (all three AEADs are stream ciphers).
+            let nt_ = nt;
+            for rec in self.recs.iter().rev() {
+                if rec.ident == ident && rec.seq == pseq && rec.ct.len() >= nt_ {
+                    let n = (rec.ct.len() - nt_).min(body.len()).min(rec.pt.len());
+                    if n >= 8 {
+                        let would: Vec<u8> = (0..n).map(|i| body[i] ^ rec.ct[i] ^ rec.pt[i]).collect();
+                        cov.hit("probe.rejected_inplace_buffer_inspected");
+                        if buf[..n] == would[..] {
+                            return Err(viol(
+                                "open.rejected-but-plaintext-left-in-buffer",
+                                format!("after {} the caller's buffer does not hold the decryption of the rejected input", res_s(&res)),
+                                format!("buffer = {} = presented bytes XOR keystream of position {}", short_hex(&buf), pseq),
+                            ));
+                        }
+                    }
+                    break;
+                }
+            }
+        }
         if let Some(before) = ledger_before {
             // a single-shot open builds and drops a whole receiver context inside the call: whatever
             // the outcome, its secrets must have been dropped and wiped when the call returns
@@ -862,6 +885,13 @@ impl World {
             }
             if buf[..len.min(16)] != first[..] {
                 return Err(self.viol("volume.plaintext", "the plaintext that was sealed".into(), "different bytes".into()));
+            }
+            // one message = one position, whatever its size
+            let (ms, mo) = { let sc = self.scs[c].as_ref().unwrap(); (sc.m_seq, sc.m_over) };
+            let got_s = self.scs[c].as_ref().unwrap().real.as_ref().unwrap().seq_state();
+            let got_r = self.rcs[c].as_ref().unwrap().real.as_ref().unwrap().seq_state();
+            if got_s != (ms, mo) || got_r != (ms, mo) {
+                return Err(self.viol("volume.counter-law", format!("sender and receiver at position {:?} after message #{} of {} bytes", (ms, mo), i, len), format!("sender {:?}, receiver {:?}", got_s, got_r)));
             }
             cov.ops += 2;
         }
